@@ -4,6 +4,8 @@ the Lean model (NfcVerif.Model.Des): three implementations are compared by the
 C20 check.  Also the FeliCa Lite / Lite-S MAC as the user manuals describe it
 (all quantities little-endian 64-bit words, no byte-string reversal)."""
 
+import functools
+
 IP = [58, 50, 42, 34, 26, 18, 10, 2, 60, 52, 44, 36, 28, 20, 12, 4, 62, 54, 46, 38, 30, 22, 14, 6,
       64, 56, 48, 40, 32, 24, 16, 8, 57, 49, 41, 33, 25, 17, 9, 1, 59, 51, 43, 35, 27, 19, 11, 3,
       61, 53, 45, 37, 29, 21, 13, 5, 63, 55, 47, 39, 31, 23, 15, 7]
@@ -47,7 +49,9 @@ def _perm(x, width, table):
     return r
 
 
+@functools.lru_cache(maxsize=4096)
 def _subkeys(key64):
+    """K1..K16 (memoised: the simulated tags recompute the same session keys over and over)"""
     cd = _perm(key64, 64, PC1)
     c, d = cd >> 28, cd & 0xFFFFFFF
     out = []
@@ -55,7 +59,7 @@ def _subkeys(key64):
         c = ((c << s) | (c >> (28 - s))) & 0xFFFFFFF
         d = ((d << s) | (d >> (28 - s))) & 0xFFFFFFF
         out.append(_perm((c << 28) | d, 56, PC2))
-    return out
+    return tuple(out)
 
 
 def _f(r, k):
@@ -85,6 +89,7 @@ def des_dec(key64, block64):
     return _crypt(block64, _subkeys(key64)[::-1])
 
 
+@functools.lru_cache(maxsize=65536)
 def tdes2_enc(k1, k2, block64):
     """two-key triple DES, EDE"""
     return des_enc(k1, des_dec(k2, des_enc(k1, block64)))
